@@ -410,6 +410,9 @@ def run(tier: str, seed: int) -> Result:
         for af in ("sub:ValueError", "stop", "sub:StopIteration+stop"):
             cfgs.append((False, s, 2 if tier == "quick" else 3, 1, af))
     cfgs.append((True, "req_pending", 2, 1, "stop"))
+    # configuring the connected socket fails (setsockopt raises): the attempt fails, and the socket it had is closed like everything else
+    cfgs.append((False, "connecting", 2, 1, "env:nodelay"))
+    cfgs.append((False, "init", 3, 1, "env:nodelay"))
     budget = 240.0 if tier == "quick" else 2400.0
     t_end = time.monotonic() + budget
     per_cfg = []
@@ -417,7 +420,17 @@ def run(tier: str, seed: int) -> Result:
         noise, sd, depth, bound = cfg[:4]
         app_fails = cfg[4] if len(cfg) > 4 else ""
         left = max(5.0, (t_end - time.monotonic()) / (len(cfgs) - i))
-        st = explore_parallel(factory, (noise, sd, app_fails), depth=depth, bound=bound, budget_s=left, split_depth=1)
+        from .. import world as _world
+
+        env_opt = app_fails if app_fails.startswith("env:") else ""
+        if env_opt:
+            app_fails = ""
+        _world.NODELAY_EXC[0] = OSError(22, "Invalid argument") if env_opt == "env:nodelay" else None
+        try:
+            st = explore_parallel(factory, (noise, sd, app_fails), depth=depth, bound=bound, budget_s=left, split_depth=1)
+        finally:
+            _world.NODELAY_EXC[0] = None
+        app_fails = app_fails or env_opt
         per_cfg.append({"noise": noise, "seed_state": sd, "application_failures": app_fails, "depth": depth, "deviation_bound": bound, "executions": st.executions,
                         "states": st.states, "time_capped": st.time_capped})
         for v in st.violations:
@@ -466,7 +479,11 @@ def replay(rp: dict[str, Any]) -> bool:
             print(line)
         print("violated:", o["viol"])
         return not o["viol"]
-    h = factory(d["noise"], d["seed_state"], d.get("app_fails", ""))
+    from .. import world as _world
+
+    af = d.get("app_fails", "")
+    _world.NODELAY_EXC[0] = OSError(22, "Invalid argument") if af == "env:nodelay" else None
+    h = factory(d["noise"], d["seed_state"], "" if af.startswith("env:") else af)
     w = h.fresh()
     try:
         v: list[str] = []
